@@ -4,7 +4,7 @@ from .c01 import sig_certificate
 
 PROP_FILE = 'Properties/C10.v'
 THEOREMS = ['C10_literal_leaf_exact', 'C10_atoms_rendered_verbatim', 'C10_rendered_string_is_atoms', 'C10_refuted',
-            'C10_clean_text_survives_postprocessing', 'C10_emitted_text_reaches_output']
+            'C10_clean_text_survives_postprocessing', 'C10_emitted_text_reaches_output', 'C10_signature_conserved_in_scope']
 
 
 def run(tier, seed, replay=None):
